@@ -219,6 +219,8 @@ class G:
                 p = self.construct(v.proto)
                 if c == "marsh":
                     return "(unmarshal (marshal (struct/with-proto %s %s)))" % (p, kv)
+                if c in ("tostruct", "freeze"):
+                    return "(table/to-struct (table %s) %s)" % (kv, p)
                 return "(struct/with-proto %s %s)" % (p, kv)
             if c == "ctor":
                 return "(struct %s)" % kv
